@@ -686,11 +686,62 @@ func (s *IndexedState) get(ctx *Context, id string, getLock bool) (Map, error) {
 
 func (s *IndexedState) SearchForIDs(ctx *Context, pattern Map) ([]string, error) {
 	Log(DEBUG, ctx, "IndexedState.SearchForIDs", "location", s.Name, "pattern", pattern)
-	terms := ExtractTerms(ctx, pattern)
+	// (An optional field - "likes":"??x" - need not be there, so a
+	// fact does not need its terms to be a candidate.)
+	terms := ExtractTerms(ctx, withoutOptionalFields(pattern))
 
 	ids, err := s.FactIndex.Search(ctx, terms)
 
 	return ids, err
+}
+
+// isOptionalVariable reports whether the value is a variable that makes
+// the field it is the value of optional ("??x").
+func isOptionalVariable(x interface{}) bool {
+	s, is := x.(string)
+	return is && strings.HasPrefix(s, "??")
+}
+
+// withoutOptionalFields returns the pattern without its optional
+// fields (the given pattern itself if it has none).
+func withoutOptionalFields(pattern map[string]interface{}) map[string]interface{} {
+	var stripped map[string]interface{}
+	for k, v := range pattern {
+		w := v
+		switch vv := v.(type) {
+		case map[string]interface{}:
+			w = withoutOptionalFields(vv)
+		case Map:
+			w = withoutOptionalFields(vv)
+		case []interface{}:
+			acc := make([]interface{}, len(vv))
+			for i, x := range vv {
+				acc[i] = x
+				switch xx := x.(type) {
+				case map[string]interface{}:
+					acc[i] = withoutOptionalFields(xx)
+				case Map:
+					acc[i] = withoutOptionalFields(xx)
+				}
+			}
+			w = acc
+		}
+		if stripped == nil {
+			stripped = make(map[string]interface{}, len(pattern))
+			for k0, v0 := range pattern {
+				stripped[k0] = v0
+			}
+		}
+		if isOptionalVariable(v) {
+			delete(stripped, k)
+		} else {
+			stripped[k] = w
+		}
+	}
+	if stripped == nil {
+		return pattern
+	}
+	return stripped
 }
 
 // expire checks for expiration and removes the fact if expired.
